@@ -6,6 +6,9 @@ import PyxModel.Extract.XsdWire
     (c20 <diagram> "component name" (<xedit>…))
         -> (ok <xsd d comp> <xsd (applyXEdits es d) comp> <render (specEdits (xresolveAll d comp es) (xsdSpec d comp))>)
          | (error no-component)
+    (c20-session <diagram> (("component name" (<xedit>…))…))
+        -> ((ok <xsd>) | (error no-component) …)   one answer per step: the schema of the component generated from
+           `applyXEdits es d` (nothing that happened before matters)
     (c20-text <diagram> "component name")  -> (ok "<the text of the written file>") | (error no-component)
 -/
 namespace Pyx.Driver.C20
@@ -20,6 +23,21 @@ def handle : List Sexp → Option Sexp
           list [sym "ok", eXml (xsd d k.id), eXml (xsd (applyXEdits es d) k.id),
                 eXml (render (specEdits (xresolveAll d k.id es) (xsdSpec d k.id)))]
         | none => list [sym "error", sym "no-component"]
+      | _, _ => list [sym "error", sym "bad-command"])
+  | [sym "c20-session", d, steps] =>
+    some (match dDiagram d, steps with
+      | some d, list steps =>
+        list (steps.map (fun st =>
+          match st with
+          | list [str name, es] =>
+            match dList dXEdit es with
+            | some es =>
+              let d' := applyXEdits es d
+              match d'.containers.find? (fun k => k.isComp && k.name == name) with
+              | some k => list [sym "ok", eXml (xsd d' k.id)]
+              | none => list [sym "error", sym "no-component"]
+            | none => list [sym "error", sym "bad-command"]
+          | _ => list [sym "error", sym "bad-command"]))
       | _, _ => list [sym "error", sym "bad-command"])
   | [sym "c20-text", d, str name] =>
     some (match dDiagram d with
